@@ -68,3 +68,11 @@ impl LuaIndex for JsonSchemaIndex {
         // TODO clear all schema index
     }
 }
+
+#[cfg(emmyluals_emmylua_analyzer_rust_verif)]
+impl JsonSchemaIndex {
+    /// Verification hook: entry counts of every container of this index.
+    pub fn verif_sizes(&self) -> Vec<(&'static str, usize)> {
+        vec![("schema_files", self.schema_files.len())]
+    }
+}
